@@ -363,7 +363,7 @@ def clash_items():
 MATRIX_TYPES = ['Int32', 'UInt64', 'Int64(min_value=0)', 'Float32', 'Float64', 'Float64(min_value=0, max_value=1)', 'String', 'String(min_length=2, max_length=3)',
                 'String(pattern="[a-c]+")', 'Bytes', 'Boolean', 'Timestamp("%Y")', 'Timestamp("%Y %Y")', 'Timestamp("%Q")', 'Timestamp("%")', 'Timestamp("")', 'Timestamp("%%")', 'List(Int32)', 'List(String, min_items=1, max_items=2)', 'Map(String, Int32)',
                 'Map(String(min_length=2), List(Int32))', 'Map(String(pattern="[a-c]+"), Int32)', 'Map(String(max_length=1), Int32?)', 'Map(String, Map(String(min_length=2), Int32))', 'AkeyMap', 'Ms', 'Mu', 'Mtree', 'Int32?', 'Ms?', 'List(Ms)', 'List(Int32?)', 'Aint', 'Anull', 'Alist', 'Astruct', 'AnullS', 'Void']
-MATRIX_LITERALS = ['0', '-1', '5', '1' + '0' * 400, '-1' + '0' * 400, '1' * 4300, '1' * 4301, '-' + '1' * 4301, '1' * 5000 + '.5', '1e' + '9' * 5000, '1.5', '-0.0', '1e400', '1e-400', '2e10', '""', '"x"', '"ab"', '"YWJj"', '"2000"', '"2000 2000"', '"%"', '"not a date"',
+MATRIX_LITERALS = ['0', '-1', '5', '1' + '0' * 400, '-1' + '0' * 400, '1' * 4300, '1' * 4301, '-' + '1' * 4301, '1' * 5000 + '.5', '1e' + '9' * 5000, '3.4028234e38', '-3.4028234e38', '1.5', '-0.0', '1e400', '1e-400', '2e10', '""', '"x"', '"ab"', '"YWJj"', '"2000"', '"2000 2000"', '"%"', '"not a date"',
                    'true', 'false', 'null', '[]', '[1]', '["a"]', '[[1]]', '[null]', '[1, "a"]', '{}', '{"ab": 1}', '{"a": 1}', '{"ab": [1]}', '{"a": [1]}', '{"zz": 1}', '{"k": {"a": 1}}', '{"k": {"ab": 1}}', '{1: 2}', '{"ab": null}',
                    'mv', 'mw', 'ms', 'mn', 'mu', 'nope', 'default', 'Ms', 'Int32']
 MATRIX_PREAMBLE = ('namespace mx\n\nstruct Ms\n    a Int32\n    b String = "d"\n\n    example default\n        a = 1\n\nunion Mu\n    mv\n    mw Int32\n    ms Ms\n    mn Ms?\n    mu Mu2\n\n    example default\n        mw = 3\n\n'
